@@ -241,12 +241,14 @@ Definition i_integ (m : option bool) (a : iarr) : iarr :=
   match m with None => i_prevent a | Some f => i_integrity f a end.
 Definition i_with_proto (a : iarr) (p : list (N * element)) : iarr :=
   let b := i_base a in i_with_base a (mkB (b_ext b) (b_ot b) p).
-(* arrayObject.setOwnStr("length") (array.go:266) after 3394dd8: writable check, toLengthUint32(val) (user code), then
-   the update is dispatched to the CURRENT storage object, which checks [[Writable]] again *)
+(* arrayObject/sparseArrayObject.setOwnStr("length") after 3394dd8 + eef08c7: writable check, toLengthUint32(val) (user
+   code), then setConvertedArrayLength on the CURRENT storage object: a length made read-only by the conversion accepts
+   an unchanged value, anything else goes through setLength (which checks [[Writable]] again) *)
 Definition same_kind (a b : iarr) : bool := match a, b with ID _, ID _ => true | IS _, IS _ => true | _, _ => false end.
 Definition i_setlen_re (a : iarr) (n eff k : N) : iarr * N :=
   if negb (i_lw a) then (a, 1) else
   let a' := if eff =? 1 then i_integrity true a else if eff =? 2 then i_with_lw a false else fst (i_set a k 7) in
+  if negb (i_lw a') && (n =? i_len a') then (a', 0) else
   let '(a'', ok) := i_setLength a' n in (a'', berr ok).
 Definition opsI : oops iarr :=
   mkO iarr primI i_define i_assign_len i_define_length i_getown i_integ (fun a => b_proto (i_base a))
@@ -426,16 +428,9 @@ Definition values_longer (a : iarr) : bool :=
   match a with ID d => da_length d <? nlen (da_values d) | _ => false end.
 
 (* tags name the region of a recorded OPEN finding of the faithful model I in which a divergence from S is
-   expected (see known/C07.json); 13 and 14 were C07-N13 / C07-N14, repaired by bbc0a30 / 3394dd8 *)
-Definition tags (a : iarr) (o : top) : list N :=
-  match o with
-  | OSetLenRe _ n eff k =>
-      (* 15 = C07-N15: the valueOf makes "length" read-only and returns the CURRENT length: nothing has to change, the
-         specification returns true (OrdinaryDefineOwnProperty with the same value), goja's setLength refuses *)
-      (let a' := if eff =? 1 then i_integrity true a else if eff =? 2 then i_with_lw a false else a in
-       if i_lw a && negb (i_lw a') && (n =? i_len a') then [15] else [])
-  | _ => []
-  end.
+   expected.  Every finding of C07 has been repaired in /repo (known/C07.json "fixed"; the last ones, C07-N13/N14/N15,
+   by bbc0a30 / 3394dd8 / eef08c7): there is no such region, every divergence from S is a violation. *)
+Definition tags (a : iarr) (o : top) : list N := [].
 
 Definition tags_at (c : tcase) (ops : list top) (n : N) : list N :=
   let '(ia, o) := istate_at (initI (c_init c)) ops (N.to_nat n) in
